@@ -1,19 +1,10 @@
 ----------------------------- MODULE Gen_TypeReg -----------------------------
 (* Behaviour export at production constants (ranges and built-in sizes from *)
-(* the driver's "sizes" record in $SIZES): every history of at most MaxAdds *)
+(* the driver's "sizes" record, module TypeRegSizes): every history of at most MaxAdds *)
 (* registrations followed by one more call, with the answer TypeReg expects.*)
-EXTENDS TypeReg, Json, IOUtils
+EXTENDS TypeReg, TypeRegSizes, Json, IOUtils
 CONSTANT MaxAdds
 VARIABLE hist
-SizeLog  == ndJsonDeserialize(IOEnv.SIZES)[1]
-FIfBase == SizeLog.ifbase     FIfAdd == SizeLog.ifadd      FIfCap == SizeLog.ifcap
-FDynBase == SizeLog.dynbase   FDynCap == SizeLog.dyncap
-FMetaBase == SizeLog.metabase FMetaCap == SizeLog.metacap
-FGenBase == SizeLog.genbase   FGenCap == SizeLog.gencap
-FPtr == SizeLog.ptr
-FEntries == {SizeLog.fixed[i] : i \in DOMAIN SizeLog.fixed}
-FFixed == [id \in {e.id : e \in FEntries} |->
-             LET e == CHOOSE x \in FEntries : x.id = id IN [size |-> e.size, managed |-> e.managed]]
 FBuiltinIf == <<"convertable", "logger", "reply", "output", "object", "config", "iterator", "collection", "solver">>
 GProbe == {0, 1, 4, 11, 24, 25, 26, 32, 64, 67, 90, 96, 99, 105, 108, 115, 122, 127,
            128, 129, 136, 137, 143, 144, 145, 146, 191, 192, 193, 194, 255,
